@@ -1,7 +1,8 @@
 """C11 — check configuration and MANIFEST entry."""
 CFG = {
     "count": {"quick": 120000, "thorough": 6000000},
-    "lean_files": ["GeoModel/Orient.lean", "GeoModel/Segment.lean", "GeoModel/LineIntersection.lean", "GeoModel/Ops/C11.lean"],
+    "lean_files": ["GeoModel/Orient.lean", "GeoModel/Segment.lean", "GeoModel/LineIntersection.lean", "GeoModel/Ops/C11.lean",
+                   "GeoProofs/Lemmas/SegmentSpec.lean", "GeoProofs/Lemmas/LISpec.lean"],
     "rule": "pairs of segments: 50% on 2..5-grids (all coincidence classes incl. zero-length), 10% collinear on a common lattice line, "
             "20% adversarial f64 (T-junction / touching end point nudged by 1-3 ulps), 10% nearly parallel at magnitudes up to 2^43, 10% wild floats; "
             "each case evaluated in both operand orders and against Line::intersects; distinct by input text; "
@@ -17,9 +18,19 @@ CFG = {
 MANIFEST = {
     "technique": "Lean 4 proof (case analysis of the decision tree against the point-set specification of a segment) + model/implementation correspondence on grid and adversarial f64 segment pairs",
     "text": "The decision tree of line_intersection (envelope rejection, four orientations, same-side exits, the ten-row collinear table in source order, "
-            "the end-point copy cascade) is mirrored in Lean over exact rationals with the exact Cramer point. Theorems in Props/C11.lean relate the "
-            "classification to the point-set definition of a segment; the correspondence compares class, copied end points and overlaps for equality in both "
-            "operand orders, the proper point within a conditioning-aware bound and inside both bounding boxes, and agreement with Line::intersects.",
+            "the end-point copy cascade) is mirrored in Lean over exact rationals with the exact Cramer point. Specification: SegMem p a b := exists t in [0,1], "
+            "p = a + t(b-a) (Lemmas/SegmentSpec.lean), with lineCoord_iff (point-on-segment = SegMem), lineLine_iff (Line x Line intersects = the segments share a "
+            "point, including that the duplicated self.end box test loses nothing) and lineLine_symm. Proved in Props/C11.lean for all rational inputs: "
+            "li_isSome_iff / li_none_iff (Some exactly when the closed segments share a point), li_agrees_intersects (is_some = Line::intersects), "
+            "li_improper_endpoint (improper point is one of the four end points), li_single_on_both and proper_point_on_both (single point lies on both segments), "
+            "li_single_exact (it is the only common point: S p n S q = {x}), li_proper_iff (flag = no collinear orientation), li_proper_iff_not_endpoint "
+            "(flag = the point is none of the four end points), "
+            "li_collinear_sub, li_collinear_all_collinear and li_collinear_exact (overlap ends lie on both segments; all four end points collinear; "
+            "the overlap is exactly the common part, S p n S q = S(x,y)), "
+            "li_collinear_nondegenerate_partial (overlap ends distinct when both operands have positive length; li_zero_length_witness is the K12 counterexample), "
+            "li_symm (argument order: same class, equal single point and flag, overlap equal up to direction). The correspondence compares "
+            "class, copied end points and overlaps for equality in both operand orders, the proper point within a conditioning-aware bound and inside both "
+            "bounding boxes, and agreement with Line::intersects.",
     "note": "Trusted: Lean kernel + audited axioms; harness/generators (sampling). Known findings K10 (underflow range), K11 (nearest-endpoint fallback outside a bbox), "
             "K12 (zero-length operand gives degenerate Collinear) are listed in known_findings/C11.json and printed on every run.",
 }
